@@ -31,7 +31,7 @@ try:
             b = "%s/_bd" % wt
             rc, o = sh("cmake -G Ninja -S %s -B %s %s >/dev/null && cmake --build %s --target gmssl" % (wt, b, " ".join(demo_cmake), b))
             assert rc == 0, o[-2000:]
-        rc, o = sh("gcc -O1 -I%s/include -o %s/demo_%s %s -L%s/bin -lgmssl -Wl,-rpath,%s/bin" % (wt, wt, tag, os.path.abspath(demo), b, b))
+        rc, o = sh("gcc -O1 -I%s/include -o %s/demo_%s %s -L%s/bin -lgmssl -lpthread -Wl,-rpath,%s/bin" % (wt, wt, tag, os.path.abspath(demo), b, b))
         assert rc == 0, "demo build: " + o[-2000:]
         rc, o = sh("%s/demo_%s" % (wt, tag), timeout=1800)
         return rc, o[-1500:]
